@@ -155,6 +155,147 @@ func wideCases(st *idlgen.SStruct) []directedCase {
 	return out
 }
 
+// keysProgram: the aimed unit for the key-type dispatch of FieldWriteMap/FieldReadMap (thrift.go IsIntType / IsStrType / other):
+// one map per key type — enum, typedef'd enum, typedef'd i32, typedef'd string, byte, i16, i32, i64, string, binary (queried by
+// Int(int(k)) resp. Str(string(k))), bool and double (queried by Int(0)) — with string and struct values.
+func keysProgram() *idlgen.Program {
+	ty := func(k idlgen.Kind) *idlgen.Type { return &idlgen.Type{Kind: k} }
+	named := func(n string) *idlgen.Type { return &idlgen.Type{Kind: idlgen.Named, Named: &idlgen.NamedRef{File: 0, Name: n}} }
+	mp := func(k, e *idlgen.Type) *idlgen.Type { return &idlgen.Type{Kind: idlgen.Map, Key: k, Elem: e} }
+	f := &idlgen.File{Path: "dkeys.thrift", GoNS: "dkeys"}
+	f.Enums = []*idlgen.Enum{{Name: "Color", Values: []idlgen.EnumValue{{Name: "RED", Value: 1, HasValue: true}, {Name: "GREEN", Value: 5, HasValue: true}, {Name: "BLUE", Value: 0, HasValue: true}}}}
+	f.Typedefs = []*idlgen.Typedef{{Name: "TColor", Type: named("Color")}, {Name: "TInt", Type: ty(idlgen.I32)}, {Name: "TStr", Type: ty(idlgen.String)}}
+	keys := []*idlgen.Type{named("Color"), named("TColor"), named("TInt"), named("TStr"), ty(idlgen.Byte), ty(idlgen.I16), ty(idlgen.I32), ty(idlgen.I64),
+		ty(idlgen.String), ty(idlgen.Binary), ty(idlgen.Bool), ty(idlgen.Double)}
+	st := &idlgen.Struct{Kind: 's', Name: "Keys"}
+	for i, k := range keys {
+		val := ty(idlgen.String)
+		if i%2 == 1 {
+			val = named("KV")
+		}
+		st.Fields = append(st.Fields, &idlgen.Field{ID: int16(i + 1), HasID: true, Name: fmt.Sprintf("m%d", i+1), Req: idlgen.Default, Type: mp(k, val)})
+	}
+	// the same for a required field and one level below a struct
+	st.Fields = append(st.Fields,
+		&idlgen.Field{ID: 30, HasID: true, Name: "rc", Req: idlgen.Required, Type: mp(named("Color"), named("KV"))},
+		&idlgen.Field{ID: 31, HasID: true, Name: "in", Req: idlgen.Optional, Type: named("Inner")})
+	f.Structs = []*idlgen.Struct{
+		{Kind: 's', Name: "KV", Fields: []*idlgen.Field{
+			{ID: 1, HasID: true, Name: "a", Req: idlgen.Default, Type: ty(idlgen.String)},
+			{ID: 2, HasID: true, Name: "b", Req: idlgen.Optional, Type: ty(idlgen.String)}}},
+		{Kind: 's', Name: "Inner", Fields: []*idlgen.Field{
+			{ID: 1, HasID: true, Name: "ec", Req: idlgen.Default, Type: mp(named("TColor"), ty(idlgen.I32))},
+			{ID: 2, HasID: true, Name: "n", Req: idlgen.Default, Type: ty(idlgen.I32)}}},
+		st,
+	}
+	f.Order = []idlgen.DefRef{{Kind: 'e', Idx: 0}, {Kind: 't', Idx: 0}, {Kind: 't', Idx: 1}, {Kind: 't', Idx: 2}, {Kind: 's', Idx: 0}, {Kind: 's', Idx: 1}, {Kind: 's', Idx: 2}}
+	return &idlgen.Program{Files: []*idlgen.File{f}}
+}
+
+// keysCases: for every map field of Keys, key-specific white and black paths (one present key, a present and an absent key, all
+// present keys), `{*}`, the whole map, and one level below (`$.m2{1}.a`, `$.in.ec{5}`); maps whose key is neither integer nor
+// string only take `{*}` and whole-map paths.
+func keysCases(s *idlgen.Schema, st *idlgen.SStruct) []directedCase {
+	kv := func(a, b string) *values.Value { return values.Record(values.Str(a), values.Str(b)) }
+	keyVals := func(kt *idlgen.RType) []*values.Value {
+		switch kt.Kind {
+		case idlgen.REnum:
+			return []*values.Value{values.Int(1), values.Int(5), values.Int(0)}
+		case idlgen.RByte, idlgen.RI16, idlgen.RI32, idlgen.RI64:
+			return []*values.Value{values.Int(0), values.Int(5), values.Int(7)}
+		case idlgen.RString:
+			return []*values.Value{values.Str("k"), values.Str("l"), values.Str("")}
+		case idlgen.RBinary:
+			return []*values.Value{values.Bytes([]byte("k")), values.Bytes([]byte{0, 255}), values.Bytes([]byte("zz"))}
+		case idlgen.RBool:
+			return []*values.Value{values.Bool(false), values.Bool(true)}
+		case idlgen.RDouble:
+			return []*values.Value{values.Double(0x3ff0000000000000), values.Double(0x4000000000000000)}
+		}
+		return nil
+	}
+	mapVal := func(t *idlgen.RType) *values.Value {
+		m := values.Map()
+		for i, k := range keyVals(t.Key) {
+			var e *values.Value
+			switch t.Elem.Kind {
+			case idlgen.RStruct:
+				e = kv(fmt.Sprintf("a%d", i), fmt.Sprintf("b%d", i))
+			case idlgen.RI32:
+				e = values.Int(int64(100 + i))
+			default:
+				e = values.Str(fmt.Sprintf("v%d", i))
+			}
+			m.E = append(m.E, k, e)
+		}
+		return m
+	}
+	v := &values.Value{K: values.KRecord}
+	for _, f := range st.Fields {
+		if f.Type.Kind == idlgen.RMap {
+			v.E = append(v.E, mapVal(f.Type))
+		} else {
+			in := s.Structs[f.Type.Sidx]
+			v.E = append(v.E, values.Record(mapVal(in.Fields[0].Type), values.Int(3)))
+		}
+	}
+	keyNode := func(kt *idlgen.RType, sub *mnode, ks ...*values.Value) *mnode {
+		n := &mnode{}
+		for _, k := range ks {
+			st := keyStep(kt, k)
+			n.kids = append(n.kids, &mkid{kind: st.kind, id: st.id, s: st.s, sub: sub})
+		}
+		return n
+	}
+	absent := func(kt *idlgen.RType) *values.Value {
+		if keyKind(kt) == 's' {
+			return values.Str("no such key")
+		}
+		return values.Int(3)
+	}
+	var out []directedCase
+	root := func(f *idlgen.SField, byName bool, sub *mnode) *mnode {
+		return &mnode{kids: []*mkid{fieldKid(int64(f.ID), f.Name, byName, sub)}}
+	}
+	for _, black := range []bool{false, true} {
+		for i, f := range st.Fields {
+			byName := i%2 == 0
+			if f.Type.Kind != idlgen.RMap {
+				in := s.Structs[f.Type.Sidx]
+				ec := in.Fields[0]
+				ks := keyVals(ec.Type.Key)
+				out = append(out,
+					directedCase{v, black, root(f, byName, &mnode{kids: []*mkid{fieldKid(int64(ec.ID), ec.Name, true, keyNode(ec.Type.Key, leafNode(), ks[1]))}})},
+					directedCase{v, black, root(f, byName, &mnode{kids: []*mkid{fieldKid(int64(ec.ID), ec.Name, false, keyNode(ec.Type.Key, leafNode(), ks[0], ks[2]))}})})
+				continue
+			}
+			kt := f.Type.Key
+			ks := keyVals(kt)
+			out = append(out,
+				directedCase{v, black, root(f, byName, leafNode())},
+				directedCase{v, black, root(f, byName, &mnode{star: leafNode(), starKind: 'm'})})
+			if f.Type.Elem.Kind == idlgen.RStruct {
+				out = append(out, directedCase{v, black, root(f, byName, &mnode{star: &mnode{kids: []*mkid{fieldKid(1, "a", true, leafNode())}}, starKind: 'm'})})
+			}
+			if keyKind(kt) == 'o' {
+				continue
+			}
+			out = append(out,
+				directedCase{v, black, root(f, byName, keyNode(kt, leafNode(), ks[0]))},
+				directedCase{v, black, root(f, byName, keyNode(kt, leafNode(), ks[1], absent(kt)))},
+				directedCase{v, black, root(f, byName, keyNode(kt, leafNode(), ks[2], ks[0]))},
+				directedCase{v, black, root(f, byName, keyNode(kt, leafNode(), absent(kt)))},
+				directedCase{v, black, root(f, byName, keyNode(kt, leafNode(), ks...))})
+			if f.Type.Elem.Kind == idlgen.RStruct {
+				out = append(out,
+					directedCase{v, black, root(f, byName, keyNode(kt, &mnode{kids: []*mkid{fieldKid(1, "a", true, leafNode())}}, ks[1]))},
+					directedCase{v, black, root(f, byName, keyNode(kt, &mnode{kids: []*mkid{fieldKid(2, "b", false, leafNode())}}, ks[0], ks[2]))})
+			}
+		}
+	}
+	return out
+}
+
 type directedCase struct {
 	v     *values.Value
 	black bool
@@ -217,6 +358,9 @@ func directedCases(s *idlgen.Schema, sidx int) []directedCase {
 				directedCase{v, black, nil})
 		}
 		return out
+	}
+	if s.Structs[sidx].Name == "Keys" {
+		return keysCases(s, s.Structs[sidx])
 	}
 	if s.Structs[sidx].Name == "Wide" {
 		return wideCases(s.Structs[sidx])
